@@ -71,6 +71,8 @@ type runner struct {
 	quickDev bool
 	appendEvery int
 	base    int // id offset for trace ids (tracereset separates runs)
+	notes   []string
+	noDev   bool // skip the deviations (scaffolding blocks of the climb scenario)
 }
 
 func (r *runner) problem(kind string, info map[string]interface{}) {
@@ -123,6 +125,11 @@ func (r *runner) setHead(b int) error {
 var dtClasses = []string{"fast", "target", "slow"}
 
 func dtSeconds(R *rand.Rand, class string) uint64 {
+	if strings.HasPrefix(class, "=") { // exact number of seconds
+		var v uint64
+		fmt.Sscanf(class[1:], "%d", &v)
+		return v
+	}
 	switch class {
 	case "fast":
 		return uint64(R.Intn(3)) // 0..2
@@ -228,6 +235,20 @@ func (r *runner) mineOn(parent, wantOrder int, dtc string) (int, error) {
 	}
 	ev := map[string]interface{}{"op": "extend", "b": id, "p": parent, "dt": dtc, "ord": m.Order}
 
+	// 0. order of the candidate: asked again (assemble asked once: the answer now comes through the calc-order cache), on a
+	// transported copy, and from the oracle - before anything is stored
+	if _, oo, oerr := oOrder(m.Blocks[mininet.Zone], m.Blocks[mininet.Zone].Hash()); oerr == nil {
+		for k := 0; k < 2; k++ {
+			_, o, err := n.ZoneCore().CalcOrder(m.Blocks[mininet.Zone])
+			if err != nil {
+				o = -1
+			}
+			r.stats["order_comparisons"]++
+			if o != oo || o != m.Order {
+				r.problem("order-unstable", map[string]interface{}{"block": id, "first": m.Order, "again": o, "oracle": oo, "call": k})
+			}
+		}
+	}
 	// 1. the node's own verdict on the honest header, at every level the block belongs to, BEFORE it is known
 	acc := true
 	for ctx := mininet.Zone; ctx >= m.Order; ctx-- {
@@ -240,15 +261,15 @@ func (r *runner) mineOn(parent, wantOrder int, dtc string) (int, error) {
 	// 2. oracle: every derived field
 	fieldsOK := r.checkDerived(rec)
 	// 3. deviations (need the honest block NOT to be in the database yet: VerifyHeader short-cuts known hashes)
-	r.deviations(rec)
+	if !r.noDev {
+		r.deviations(rec)
+	}
 
 	if err := n.Insert(m); err != nil {
-		r.problem("honest-block-not-appended", map[string]interface{}{"block": id, "err": err.Error()})
-		return -1, fmt.Errorf("insert: %w", err)
+		return -1, r.appendFailed(id, acc, err)
 	}
 	if err := n.Advance(m); err != nil {
-		r.problem("honest-block-not-appended", map[string]interface{}{"block": id, "err": "advance: " + err.Error()})
-		return -1, fmt.Errorf("advance: %w", err)
+		return -1, r.appendFailed(id, acc, fmt.Errorf("advance: %w", err))
 	}
 	r.blocks = append(r.blocks, rec)
 	r.byHash[m.Hash] = id
@@ -259,6 +280,32 @@ func (r *runner) mineOn(parent, wantOrder int, dtc string) (int, error) {
 	ev["ok"] = fieldsOK
 	r.events = append(r.events, ev)
 	return id, nil
+}
+
+// appendFailed: the node did not append its own block. If one of verifyHeader's rules is named, that is C09's business;
+// anything else (termini / pending-body / state processing, e.g. the asynchronous worker racing the synchronous driver)
+// is not a header rule: the run ends here and the event is reported as such.
+var errHarnessAppend = errors.New("append failed outside the header rules")
+
+func (r *runner) appendFailed(id int, headerAccepted bool, err error) error {
+	m := err.Error()
+	headerRule := false
+	for _, s := range []string{"invalid difficulty", "invalid parent entropy", "invalid parent delta entropy", "invalid parent uncled", "invalid gasLimit",
+		"invalid gasUsed", "invalid StateLimit", "invalid stateUsed", "invalid baseFee", "invalid primeTerminus", "invalid expansion number", "invalid number",
+		"timestamp older than parent", "invalid header hash", "invalid efficiency score", "invalid threshold count", "invalid etx eligible slices",
+		"invalid miner difficulty", "invalid prime state root", "invalid region state root", "invalid sha", "invalid scrypt", "invalid kawpow", "before kawpow fork",
+		"order of the block is greater", "same slice", "lock byte", "header data field", "out-of-scope", "extra-data too long", "invalid proof-of-work"} {
+		if strings.Contains(m, s) {
+			headerRule = true
+		}
+	}
+	if headerRule || !headerAccepted {
+		r.problem("honest-block-not-appended", map[string]interface{}{"block": id, "err": m})
+		return fmt.Errorf("insert: %w", err)
+	}
+	r.stats["append_failed_outside_header_rules"]++
+	r.notes = append(r.notes, fmt.Sprintf("block %d: %s", id, m))
+	return fmt.Errorf("%w: %s", errHarnessAppend, m)
 }
 
 func (r *runner) rec(h common.Hash) *blockRec {
@@ -366,8 +413,14 @@ func (r *runner) checkDerived(b *blockRec) bool {
 		switch {
 		case dt > oMaxTimeDiffBetweenBlocks:
 			r.stats["retarget_clamped"]++
+			if d.Cmp(big.NewInt(r.prof.GenesisDiff)) > 0 {
+				r.stats["retarget_clamped_above_floor"]++
+			}
 		case dt > oDurationLimit:
 			r.stats["retarget_down"]++
+			if d.Cmp(big.NewInt(r.prof.GenesisDiff)) > 0 {
+				r.stats["retarget_down_above_floor"]++
+			}
 		case dt < oDurationLimit:
 			r.stats["retarget_up"]++
 		}
@@ -1096,6 +1149,8 @@ func profiles() map[string]profile {
 		"ramp": {Name: "ramp", GenesisDiff: 4000, GasCeil: 50000000, TimeToStartTx: 3, BlocksPerMonth: 6},
 		// chain crosses the KawPow fork at prime block 1 (progpow transition window, share-difficulty fields live)
 		"fork": {Name: "fork", GenesisDiff: 5000, GasCeil: 5000000, TimeToStartTx: 0, Fork: true},
+		// difficulty climbs well above the configured floor before slow blocks arrive: the retarget clamp is visible
+		"climb": {Name: "climb", GenesisDiff: 20000, GasCeil: 5000000, TimeToStartTx: 0},
 	}
 }
 
@@ -1163,6 +1218,7 @@ func cmdChains(args []string) {
 	shapes := fs.String("shapes", "", "ndjson of TLC-generated behaviours of Header.tla (ext part) to realise, one fresh network each")
 	appendEvery := fs.Int("append-every", 5, "every k-th block: also hand each zone-level deviation to Slice.Append (0: never)")
 	coldEvery := fs.Int("cold-every", 10, "cold-core comparison every k blocks (and at the end)")
+	climb := fs.Int("climb", 0, "first mine this many fast blocks without deviations, then blocks with time deltas around the retarget clamp")
 	fs.Parse(args)
 	prof, ok := profiles()[*profName]
 	if !ok {
@@ -1175,7 +1231,9 @@ func cmdChains(args []string) {
 	lp, ln := checkLogs(rand.New(rand.NewSource(*seed)))
 	probs = append(probs, lp...)
 	stats["log_entropy_checks"] = ln
+	notes := []string{}
 	merge := func(r *runner) {
+		notes = append(notes, r.notes...)
 		trace = append(trace, r.finishTrace()...)
 		probs = append(probs, r.probs...)
 		for k, v := range r.stats {
@@ -1208,15 +1266,24 @@ func cmdChains(args []string) {
 			r.appendEvery = *appendEvery
 			usingCold := false
 			var cold *core.Core
+			abandoned := false
 			for k, s := range sh {
+				if abandoned {
+					break
+				}
 				mm := func(what string, want, got interface{}) {
 					replayMismatches = append(replayMismatches, map[string]interface{}{"shape": si, "step": k, "op": s.Op, "what": what, "want": want, "got": got, "behaviour": sh})
 				}
 				switch s.Op {
 				case "extend":
 					id, err := r.mineOn(s.P, s.Ord-1, s.Dt)
+					if errors.Is(err, errHarnessAppend) {
+						abandoned = true
+						break
+					}
 					if err != nil {
 						mm("extend", "accept", err.Error())
+						abandoned = true
 						break
 					}
 					if id != s.B {
@@ -1278,6 +1345,28 @@ func cmdChains(args []string) {
 			fatal(3, "boot:", err)
 		}
 		r.appendEvery = *appendEvery
+		if *climb > 0 {
+			r.noDev = true
+			plan := []string{}
+			for i := 0; i < *climb; i++ {
+				plan = append(plan, "=0")
+			}
+			for _, slow := range []string{"=150", "=101", "=1000", "=100", "=99", "=30"} {
+				plan = append(plan, slow, "=0")
+				for i := 0; i < 20; i++ { // climb again
+					plan = append(plan, "=0")
+				}
+			}
+			for i, dtc := range plan {
+				if _, err := r.mineOn(r.head(), -1, dtc); err != nil {
+					if !errors.Is(err, errHarnessAppend) {
+						r.problem("driver-step-failed", map[string]interface{}{"step": i, "err": err.Error()})
+					}
+					break
+				}
+			}
+			r.noDev = false
+		}
 		for i := 0; i < *steps; i++ {
 			head := r.head()
 			parent := head
@@ -1306,7 +1395,9 @@ func cmdChains(args []string) {
 			}
 			dtc := dtClasses[r.R.Intn(3)]
 			if _, err := r.mineOn(parent, want, dtc); err != nil {
-				r.problem("driver-step-failed", map[string]interface{}{"step": i, "err": err.Error()})
+				if !errors.Is(err, errHarnessAppend) {
+					r.problem("driver-step-failed", map[string]interface{}{"step": i, "err": err.Error()})
+				}
 				break
 			}
 			if *coldEvery > 0 && (i+1)%*coldEvery == 0 {
@@ -1334,7 +1425,7 @@ func cmdChains(args []string) {
 		bw.Flush()
 		w.Close()
 	}
-	sum := map[string]interface{}{"profile": prof.Name, "events": len(trace), "problems": probs, "stats": stats, "replay_mismatches": replayMismatches}
+	sum := map[string]interface{}{"profile": prof.Name, "events": len(trace), "problems": probs, "stats": stats, "replay_mismatches": replayMismatches, "notes": notes}
 	b, _ := json.Marshal(sum)
 	fmt.Println(string(b))
 }
